@@ -5,13 +5,15 @@ go 1.22
 require (
 	github.com/beevik/etree v1.5.0
 	github.com/crewjam/saml v0.0.0
+	github.com/golang-jwt/jwt/v4 v4.5.2
+	github.com/russellhaering/goxmldsig v1.4.0
 	golang.org/x/crypto v0.33.0
+	golang.org/x/net v0.34.0
 )
 
 require (
 	github.com/jonboulle/clockwork v0.2.2 // indirect
 	github.com/mattermost/xml-roundtrip-validator v0.1.0 // indirect
-	github.com/russellhaering/goxmldsig v1.4.0 // indirect
 )
 
 replace github.com/crewjam/saml => /repo
